@@ -67,6 +67,8 @@ var c07ReqKinds = []Req{
 	preflightReq("https://sub.one.example", "MOVE", []string{"x-seven"}, false),                              // 11 preflight succeeding for configuration 7 only
 	preflightReq("https://two.example:8443", "PATCH", []string{"authorization"}, false),                      // 12 preflight succeeding for configuration 2 only (pattern dropped by 8)
 	actualReq("POST", "https://a.two.example"),                                                               // 13 actual POST, origin allowed by 2 and 8
+	preflightReq("https://common.example", "PUT", []string{"x-one", "x-unlisted"}, false),                    // 14 two ACRH lines, the first equal to kind 9's only line: fails everywhere
+	preflightReq("https://common.example", "PUT", []string{"x-one", "x-one"}, false),                         // 15 repeated line: fails everywhere (not strictly increasing)
 }
 
 // operations run sequentially after every injected mini-history
@@ -649,7 +651,7 @@ func c07StressHistory(r *Run, l *Local, g *c07Golden, model porcupine.Model, rng
 
 func TestVerif_C07(t *testing.T) {
 	r := newRun(t, "C07")
-	r.Rule("M-inject: every start state (passthrough + 8 configurations x debug, two of them extending / shrinking another entry list by list) x every outer operation (14 request kinds, Reconfigure to each catalogue entry / nil / invalid, SetDebug, Config) x inner operation sequences (single writers, Config, requests, and 2-3 operation sequences such as Reconfigure(nil);Reconfigure(B)) injected at every schedule point of the outer operation " +
+	r.Rule("M-inject: every start state (passthrough + 8 configurations x debug, two of them extending / shrinking another entry list by list) x every outer operation (16 request kinds, Reconfigure to each catalogue entry / nil / invalid, SetDebug, Config) x inner operation sequences (single writers, Config, requests, and 2-3 operation sequences such as Reconfigure(nil);Reconfigure(B)) injected at every schedule point of the outer operation " +
 		"(k-th Header() call, WriteHeader, Write, handler entry/exit, and the lock-boundary yield points generated from the current text of /repo); M-lin: stress histories (8 clients x 25 operations on one middleware, GOMAXPROCS 2/4/16, three yield-hook profiles) under -race; every history is checked by porcupine against the sequential (configuration, debug) model with golden responses. " +
 		"evaluation = one recorded operation; non-trivial = distinct (outer operation, injection point, inner sequence) triples plus distinct stress interleavings (hash of the ticket-ordered call/return sequence)")
 	r.Assume("operations are recorded at the client boundary with tickets from one atomic counter; golden responses and Config() normal forms are computed sequentially on fresh middlewares beforehand; responses identify their state (all 13 states are pairwise distinguishable)")
